@@ -54,13 +54,22 @@ MODELS = {
     "CNFGTR": ("codon", "conditional", "state", GTR_P + ["omega"]),
     "CNFHKY": ("codon", "conditional", "state", ["kappa", "omega"]),
     "GNC": ("codon", None, "state", GN_P + ["omega"]),
+    # Huttley 2004: G multiplies substitutions to or from a CpG, G.K those that are also transitions
+    "H04G": ("codon", "tuple", "state", ["G", "kappa", "omega"]),
+    "H04GK": ("codon", "tuple", "state", ["G.K", "kappa", "omega"]),
+    "H04GGK": ("codon", "tuple", "state", ["G", "G.K", "kappa", "omega"]),
     "MG94HKY:gc2": ("codon:2", "monomer", "nuc", ["kappa", "omega"]),      # vertebrate mitochondrial code
     "GY94:gc2": ("codon:2", "tuple", "state", ["kappa", "omega"]),
     "JTT92": ("protein", "tuple", "state", []),
     "DSO78": ("protein", "tuple", "state", []),
     "WG01": ("protein", "tuple", "state", []),
     "AH96": ("protein", "tuple", "state", []),
+    "AH96_mtmammals": ("protein", "tuple", "state", []),
 }
+# "to or from CpG" can be read two ways for the one codon pair CCG <-> CGG (a CG is destroyed and another one
+# created by the same change); the statement does not choose, so both readings are accepted
+CPG_READINGS = ("CpG", "CpG-one-window")
+
 # a few entries of the published PAML tables (jones.dat, dayhoff.dat) the data arrays must agree with
 _PAML_SPOT = {"JTT92": {("A", "R"): 58, ("A", "N"): 54, ("R", "N"): 45, ("A", "D"): 81, ("R", "D"): 16, ("N", "D"): 528},
               "DSO78": {("A", "R"): 27, ("A", "N"): 98, ("R", "N"): 32, ("A", "D"): 120, ("R", "D"): 0, ("N", "D"): 905}}
@@ -134,8 +143,9 @@ class Expected:
     """parameter table of a case by the rules' plain reading: a rule assigns its value to the edges (and bins)
     it names, later rules override earlier ones"""
 
-    def __init__(self, case):
+    def __init__(self, case, cpg_reading="CpG"):
         self.case = case
+        self.cpg_reading = cpg_reading
         self.family, self.weighting, self.pikind, self.pnames = MODELS[case["model"]]
         self.tree = S.parse_newick(case["tree"])
         self.edges = S.edge_names(self.tree)
@@ -221,7 +231,8 @@ class Expected:
     def q(self, edge, b, cache):
         key = tuple(self.par[(p, edge, b)] * self.factor(p, b) for p in self.pnames)
         if key not in cache:
-            cache[key] = S.rate_matrix(self.family, self.weighting, self.pi, dict(zip(self.pnames, key)),
+            spec_names = [{"G": self.cpg_reading, "G.K": self.cpg_reading + " & kappa"}.get(p, p) for p in self.pnames]
+            cache[key] = S.rate_matrix(self.family, self.weighting, self.pi, dict(zip(spec_names, key)),
                                        exchange=self.exchange)
         return cache[key]
 
@@ -396,8 +407,20 @@ def _short(case):
 
 
 def run_case(case, cname):
+    if case["model"].startswith("H04"):
+        first = None
+        for reading in CPG_READINGS:
+            r = _run_case(case, cname, reading)
+            if r[0] == "ok":
+                return r
+            first = first or r
+        return first
+    return _run_case(case, cname, "CpG")
+
+
+def _run_case(case, cname, cpg_reading):
     warnings.filterwarnings("ignore")
-    exp = Expected(case)
+    exp = Expected(case, cpg_reading)
     try:
         lf, rows = build_lf(case)
     except Exception as e:
@@ -937,7 +960,8 @@ def gen_codon(tier, seed):
     thorough = tier == "thorough"
     trees = ["(a:0.3,b:0.1);", "(a:0.1,b:0.3,c:0.25);", "((a:0.1,b:0.0)n1:0.2,c:0.4,d:1.5);"]
     states = S.states_of("codon")
-    models = ["MG94HKY", "GY94", "CNFGTR", "MG94GTR", "CNFHKY", "Y98", "GNC", "MG94HKY:gc2", "GY94:gc2"] \
+    models = ["MG94HKY", "GY94", "CNFGTR", "MG94GTR", "CNFHKY", "Y98", "GNC", "H04G", "H04GK", "H04GGK",
+              "MG94HKY:gc2", "GY94:gc2"] \
         if thorough else ["MG94HKY", "CNFGTR"]
     i = 0
     for model in models:
@@ -971,7 +995,7 @@ def gen_codon(tier, seed):
     # omega site classes (two bins with their own omega)
     for model in (["MG94HKY", "GY94"] if thorough else []):
         names = MODELS[model][3]
-        pi = PI_NUC[1] if MODELS[model][2] == "nuc" else _pseudo_probs(states, 5)
+        pi = PI_NUC[1] if MODELS[model][2] == "nuc" else _pseudo_probs(S.states_of("codon"), 5)
         rules = [[p, {}, 2.0] for p in names if p != "omega"]
         rules += [["omega", {"bin": "bin0"}, 0.1], ["omega", {"bin": "bin1"}, 3.0], ["bprobs", {}, [0.7, 0.3]]]
         yield {"model": model, "tree": trees[1], "len_via": "tree", "pi": pi, "rules": rules, "lfkw": {"bins": 2},
@@ -990,7 +1014,7 @@ def gen_protein(tier, seed):
     thorough = tier == "thorough"
     trees = ["(a:0.3,b:0.1);", "(a:0.1,b:0.0,c:0.25);", "((a:0.1,b:0.3)n1:0.2,c:0.4,d:1.5);"]
     i = 0
-    for model in (["JTT92", "DSO78", "WG01", "AH96"] if thorough else ["JTT92", "DSO78"]):
+    for model in (["JTT92", "DSO78", "WG01", "AH96", "AH96_mtmammals"] if thorough else ["JTT92", "DSO78"]):
         for tr in trees:
             tree = S.parse_newick(tr)
             ntips = len(S.tip_names(tree))
@@ -1153,8 +1177,9 @@ BOUNDED = {
     "codon": {
         "gen": gen_codon, "contract": contract_codon, "shards": 16,
         "functions": ["substitution_model.TimeReversibleCodon", "ns_substitution_model.NonReversibleCodon",
-                      "models.MG94HKY MG94GTR GY94 Y98 CNFGTR CNFHKY GNC", "motif_prob_model.*"],
-        "bound": "quick: MG94HKY, CNFGTR on a 3-tip tree; thorough: 7 codon models + MG94HKY, GY94 under genetic code 2 "
+                      "models.MG94HKY MG94GTR GY94 Y98 CNFGTR CNFHKY GNC H04G H04GK H04GGK", "motif_prob_model.*"],
+        "bound": "quick: MG94HKY, CNFGTR on a 3-tip tree; thorough: 10 codon models (H04G/H04GK/H04GGK: either reading of the "
+                 "CpG term for CCG<->CGG accepted) + MG94HKY, GY94 under genetic code 2 "
                  "x 3 trees (2-4 tips, one zero length) x 3 motif-probability vectors x omega {0.25,2} with optional "
                  "per-edge omega and update, plus two-bin omega site classes; columns over the sense codons + ACN TAN "
                  "--- A-G RTG NNN TGY (strided)",
@@ -1162,8 +1187,8 @@ BOUNDED = {
     },
     "protein": {
         "gen": gen_protein, "contract": contract_protein,
-        "functions": ["substitution_model.Empirical / EmpiricalProteinMatrix", "models.JTT92 DSO78 WG01 AH96"],
-        "bound": "JTT92, DSO78 (+WG01, AH96 thorough) x 3 trees (2-4 tips) x {published, 2 other} frequency vectors; "
+        "functions": ["substitution_model.Empirical / EmpiricalProteinMatrix", "models.JTT92 DSO78 WG01 AH96 AH96_mtmammals"],
+        "bound": "JTT92, DSO78 (+WG01, AH96, AH96_mtmammals thorough) x 3 trees (2-4 tips) x {published, 2 other} frequency vectors; "
                  "columns over 20 residues + B Z X - (all for 2 tips, strided above)",
         "rule": "as nucleotide",
     },
